@@ -1,7 +1,7 @@
 // bounded-pkg: internal/holsterv4/collections
 // bounded-func: collections.(*PriorityQueue).{Push,Pop,Peek,Update,Remove} (assumed contracts over container/heap)
-// bounded-bound: every sequence of up to 5 operations (whose preconditions hold) over 3 items with priorities in {0,1,2}
-// bounded-bound-thorough: every sequence of up to 6 operations (whose preconditions hold) over 3 items with priorities in {0,1,2}
+// bounded-bound: every sequence of up to 4 operations (whose preconditions hold) over 4 items with priorities in {0,1,2,3}, plus every insertion order of 5 distinct priorities followed by pops; heap shape checked after every step
+// bounded-bound-thorough: every sequence of up to 5 operations (whose preconditions hold) over 4 items with priorities in {0,1,2,3}, plus every insertion order of 6 distinct priorities followed by pops; heap shape checked after every step
 package collections
 
 // Bounded stand-in (NOT a proof): PriorityQueue delegates to container/heap through heap.Interface call-backs, which is
@@ -16,10 +16,12 @@ import (
 type vbOp struct{ kind, item, prio int } // kind: 0 push 1 pop 2 peek 3 update 4 remove
 
 func TestVerifBoundedPriorityQueueContracts(t *testing.T) {
-	const nItems, nPrio = 3, 3
-	depth := 5
+	const nItems, nPrio = 4, 4
+	depth := 4
+	perm := 5
 	if os.Getenv("VERIF_TIER") == "thorough" {
-		depth = 6
+		depth = 5
+		perm = 6
 	}
 	var ops []vbOp
 	for it := 0; it < nItems; it++ {
@@ -94,8 +96,15 @@ func TestVerifBoundedPriorityQueueContracts(t *testing.T) {
 				t.Fatalf("qlen %d != |qin| %d at step %d of %v", pq.Len(), len(in), step, seq)
 			}
 			seen := map[*PQItem]bool{}
-			for _, x := range *pq.impl {
+			for i, x := range *pq.impl {
 				seen[x] = true
+				// heap shape (stronger than the contracts, implies them for every later operation)
+				if i > 0 && (*pq.impl)[(i-1)/2].Priority > x.Priority {
+					t.Fatalf("heap order broken at slot %d after step %d of %v", i, step, seq)
+				}
+				if x.index != i {
+					t.Fatalf("index field of slot %d is %d after step %d of %v", i, x.index, step, seq)
+				}
 			}
 			for x := range in {
 				if !seen[x] {
@@ -118,6 +127,38 @@ func TestVerifBoundedPriorityQueueContracts(t *testing.T) {
 		}
 	}
 	rec(0)
+	// every insertion order of `perm` distinct priorities, then pops: each pop returns the minimum, the shape holds
+	prios := make([]int, perm)
+	for i := range prios {
+		prios[i] = i
+	}
+	var permute func(k int)
+	permute = func(k int) {
+		if k == len(prios) {
+			pq := NewPriorityQueue()
+			for _, pr := range prios {
+				pq.Push(&PQItem{Value: pr, Priority: pr})
+				for i, x := range *pq.impl {
+					if i > 0 && (*pq.impl)[(i-1)/2].Priority > x.Priority {
+						t.Fatalf("heap order broken after pushing %v", prios)
+					}
+				}
+			}
+			for want := 0; want < len(prios); want++ {
+				if got := pq.Pop().Priority; got != want {
+					t.Fatalf("insertion order %v: pop %d returned priority %d", prios, want, got)
+				}
+			}
+			count++
+			return
+		}
+		for i := k; i < len(prios); i++ {
+			prios[k], prios[i] = prios[i], prios[k]
+			permute(k + 1)
+			prios[k], prios[i] = prios[i], prios[k]
+		}
+	}
+	permute(0)
 	if count == 0 {
 		t.Fatal("no sequence explored")
 	}
